@@ -9,6 +9,7 @@ static Case gen_case() {
   c.version = chance(45) ? 1 : 2;
   c.algo = weighted({35, 13, 16, 12, 12, 12});
   c.level = one_of<int>({-1, 0, 1, 5, 9, 12});
+  if (chance(40)) c.zlib_wbits = pick(9, 15);  // zlib streams that declare smaller windows, varying from block to block
   c.prefix_len = chance(25) ? one_of<int>({1, 13, 512, 777}) : 0;
   c.index_restart = one_of<int>({1, 2, 3, 16, 1000});
   KeyUniverse u = gen_universe();
